@@ -419,12 +419,14 @@ def generate_edges(chk, module, cfg, timeout=1800, args=(), heap="12g", workers=
     The edges are sorted, so the result does not depend on worker scheduling."""
     edges = []
     inits = []
+    extra = {}
 
     def sink(o):
         if "pre" in o:
             edges.append((canon(o["pre"]), o["act"], canon(o["post"]), canon(o["act"])))
         elif "init" in o:
             inits.append(canon(o["init"]))
+            extra.update({k: v for k, v in o.items() if k != "init"})
 
     res = tlc(chk.work, module, cfg, workers=workers, timeout=timeout, args=args, heap=heap, json_sink=sink)
     chk.add_model_run(os.path.basename(cfg), res)
@@ -438,21 +440,28 @@ def generate_edges(chk, module, cfg, timeout=1800, args=(), heap="12g", workers=
     edges.sort(key=lambda e: (e[0], e[3], e[2]))
     edges = [e[:3] for e in edges]
     log("  %s: %d distinct states, %d transitions emitted in %.1fs" % (cfg, res.distinct, len(edges), res.wall))
+    res.extra = extra
     return edges, sorted(set(inits)), res
 
 
 def simulate_walks(chk, module, cfg, num, depth, seed, timeout=1800):
-    """Role B by random simulation: the Emit action constraint prints the chosen transitions;
-    a new behaviour starts whenever pre is the initial state again (nops/step counter = 0)."""
+    """Role B by random simulation: the Emit action constraint prints the chosen transitions; a new
+    behaviour starts whenever `pre` is an initial state again (splitting a walk that returns to
+    the initial state is harmless)."""
     walks = []
     cur = []
+    inits = set()
+    extra = {}
 
     def sink(o):
+        if "init" in o:
+            inits.add(canon(o["init"]))
+            extra.update({k: v for k, v in o.items() if k != "init"})
+            return
         if "pre" not in o:
             return
-        if o.get("n", 1) == 0:
-            if cur:
-                walks.append(list(cur))
+        if cur and canon(o["pre"]) in inits:
+            walks.append(list(cur))
             cur.clear()
         cur.append(o)
 
@@ -462,6 +471,8 @@ def simulate_walks(chk, module, cfg, num, depth, seed, timeout=1800):
         walks.append(list(cur))
     if res.error and "timeout" in str(res.error):
         raise Inconclusive("TLC simulate %s: %s" % (cfg, res.error))
+    res.extra = extra
+    log("  %s: simulated %d walks, %d steps in %.1fs" % (cfg, len(walks), sum(map(len, walks)), res.wall))
     return walks, res
 
 
